@@ -1007,6 +1007,224 @@ theorem wfb_sound {h : List Cell} (hb : wfb h = true) : WF h := by
   rw [hac] at this
   exact cellOKb_sound this
 
+/-! ### the evaluator reads the keyword table only by looking up the schema's own keys -/
+
+theorem anyType_kws (cfg : Cfg) (kws : List (Str × KwFn)) (inst : Json) (ts : List Json) :
+    anyType { cfg with keywords := kws } inst ts = anyType cfg inst ts := by
+  induction ts with
+  | nil => rfl
+  | cons t ts ih =>
+    unfold anyType
+    rw [ih]
+    rfl
+
+theorem typeDraft3Loop_kws (cfg : Cfg) (kws : List (Str × KwFn)) (rec : Rec) (inst : Json)
+    (k : Bool → List Err → Gen) (l : List (Nat × Json)) : ∀ acc,
+    typeDraft3Loop { cfg with keywords := kws } rec inst k l acc = typeDraft3Loop cfg rec inst k l acc := by
+  induction l with
+  | nil => intro acc; rfl
+  | cons x xs ih =>
+    intro acc
+    obtain ⟨i, t⟩ := x
+    unfold typeDraft3Loop
+    simp only [ih]
+    rfl
+
+/-- no keyword function consults the keyword table -/
+theorem applyKw_keywords_irrelevant (env : Env) (impl : FmtImpl) (cfg : Cfg) (kws : List (Str × KwFn)) (rec : Rec)
+    (f : KwFn) (v inst schema : Json) :
+    applyKw env impl { cfg with keywords := kws } rec f v inst schema = applyKw env impl cfg rec f v inst schema := by
+  cases f
+  case type => simp only [applyKw, kwType, anyType_kws]
+  case type_draft3 => simp only [applyKw, kwTypeDraft3, typeDraft3Loop_kws]
+  all_goals rfl
+
+theorem runKeyword_kws (env : Env) (impl : FmtImpl) (cfg : Cfg) (kws : List (Str × KwFn)) (rec : Rec)
+    (inst schema : Json) (kv : Str × Json) (h : lookupS kv.1 kws = lookupS kv.1 cfg.keywords) :
+    runKeyword env impl { cfg with keywords := kws } rec inst schema kv
+      = runKeyword env impl cfg rec inst schema kv := by
+  unfold runKeyword
+  show (match lookupS kv.1 kws with
+        | none => nothing
+        | some f => mapErrs (stamp kv.1 kv.2 inst schema)
+            (applyKw env impl { cfg with keywords := kws } rec f kv.2 inst schema)) = _
+  rw [h]
+  cases lookupS kv.1 cfg.keywords with
+  | none => rfl
+  | some f => simp only [applyKw_keywords_irrelevant]
+
+theorem seqG_congr {α : Type} (f g : α → Gen) (l : List α) (h : ∀ x ∈ l, f x = g x) : seqG f l = seqG g l := by
+  induction l with
+  | nil => rfl
+  | cons x xs ih =>
+    unfold seqG
+    rw [h x (List.mem_cons_self), ih (fun y hy => h y (List.mem_cons_of_mem _ hy))]
+
+theorem key_ne_of_lookup_none {k : Str} {kvs : List (Str × Json)} (h : Json.lookup k kvs = none) :
+    ∀ kv ∈ kvs, kv.1 ≠ k := by
+  induction kvs with
+  | nil => intro kv hkv; cases hkv
+  | cons x xs ih =>
+    obtain ⟨k0, v0⟩ := x
+    unfold Json.lookup at h
+    by_cases hk : k0 = k
+    · simp [hk] at h
+    · simp only [hk, if_false] at h
+      intro kv hkv
+      rcases List.mem_cons.mp hkv with rfl | hm
+      · exact hk
+      · exact ih h kv hm
+
+/-- One layer of `iter_errors` on a schema object that does not contain the key `k` is the same
+    function of the recursive call for two classes whose tables agree away from `k` (and that share
+    types, id key and format checker). -/
+theorem evalStep_override (env : Env) (impl : FmtImpl) (cfg : Cfg) (kws : List (Str × KwFn)) (k : Str)
+    (hagree : ∀ k', k' ≠ k → lookupS k' kws = lookupS k' cfg.keywords) (rec : Rec) (inst : Json)
+    (kvs : List (Str × Json)) (hk : Json.lookup k kvs = none) :
+    evalStep env impl { cfg with keywords := kws } rec inst (.obj kvs) = evalStep env impl cfg rec inst (.obj kvs) := by
+  have hkeys := key_ne_of_lookup_none hk
+  have hseq : seqG (runKeyword env impl { cfg with keywords := kws } rec inst (.obj kvs)) kvs
+      = seqG (runKeyword env impl cfg rec inst (.obj kvs)) kvs :=
+    seqG_congr _ _ kvs (fun kv hkv => runKeyword_kws env impl cfg kws rec inst _ kv (hagree kv.1 (hkeys kv hkv)))
+  have hbody : schemaBody env impl { cfg with keywords := kws } rec inst kvs = schemaBody env impl cfg rec inst kvs := by
+    unfold schemaBody
+    cases hr : Json.lookup (skey "$ref") kvs with
+    | none => exact hseq
+    | some ref =>
+      have hne : skey "$ref" ≠ k := by
+        intro e; rw [e] at hr; rw [hk] at hr; cases hr
+      cases ref with
+      | null => exact hseq
+      | _ => exact runKeyword_kws env impl cfg kws rec inst _ _ (hagree _ hne)
+  unfold evalStep
+  show (match scopeOf cfg kvs with
+        | .ok scope => withScopeOpt env scope (schemaBody env impl { cfg with keywords := kws } rec inst kvs)
+        | .error cls => crashG cls) = _
+  rw [hbody]
+  rfl
+
+/-! ### module-level state: when registry-reading probes are preserved too -/
+
+/-- does the operation call `validates` (a `version` argument was given) -/
+def DOp.registers : DOp → Bool
+  | .extend _ _ (some _) _ => true
+  | .create _ _ (some _) _ _ _ => true
+  | _ => false
+
+theorem mkClass_regs_none (env : Env) (w : World) (pre kvs tc idKey ms cwdt) :
+    (mkClass env w pre kvs tc idKey ms cwdt none).validators = none
+      ∧ (mkClass env w pre kvs tc idKey ms cwdt none).metaSchemas = none := ⟨rfl, rfl⟩
+
+theorem effect_regs_none (env : Env) (w : World) (op : DOp) (hv : op.registers = false) :
+    (effect env w op).validators = none ∧ (effect env w op).metaSchemas = none := by
+  cases op with
+  | extend c ov version tc =>
+    cases version with
+    | some v => simp [DOp.registers] at hv
+    | none =>
+      simp only [effect]
+      repeat' split
+      all_goals first | exact ⟨rfl, rfl⟩ | exact mkClass_regs_none ..
+  | create ms kws version dt tc idKey =>
+    cases version with
+    | some v => simp [DOp.registers] at hv
+    | none =>
+      simp only [effect]
+      repeat' split
+      all_goals first | exact ⟨rfl, rfl⟩ | exact mkClass_regs_none ..
+  | _ =>
+    simp only [effect]
+    repeat' split
+    all_goals first | exact ⟨rfl, rfl⟩ | exact ⟨trivial, trivial⟩
+
+theorem filterMap_congr' {α β : Type} (f g : α → Option β) (l : List α) (h : ∀ x ∈ l, f x = g x) :
+    l.filterMap f = l.filterMap g := by
+  induction l with
+  | nil => rfl
+  | cons x xs ih =>
+    have hx := h x (List.mem_cons_self)
+    have ih' := ih (fun y hy => h y (List.mem_cons_of_mem _ hy))
+    simp only [List.filterMap_cons, hx, ih']
+
+/-- a cell that is not an updatable dict is never changed -/
+theorem step_cell_nondict (env : Env) (w : World) (op : DOp) (hwf : WF w.heap) {x : Addr} {c : Cell}
+    (hc : w.heap[x]? = some c) (hnd : c.isDict = false) : (step env w op).1.heap[x]? = some c := by
+  rw [← hc]
+  refine applyEffect_old w _ (lt_of_get hc) ?_
+  intro d c' hs e; subst e
+  rcases (step_set_mutated env w op hwf hs).2 with ⟨c0, hc0, _, hd0⟩
+  rw [hc] at hc0; cases hc0; rw [hd0] at hnd; cases hnd
+
+/-- the metaschema a registry entry stands for does not change -/
+theorem step_metaEntry (env : Env) (w : World) (op : DOp) (hwf : WF w.heap) {x : Addr} (hx : x < w.heap.length)
+    (k : Str) :
+    (match (step env w op).1.heap[x]? with
+      | some (.cls _ _ _ m _) => some (k, m)
+      | _ => none)
+    = (match w.heap[x]? with
+      | some (.cls _ _ _ m _) => some (k, m)
+      | _ => none) := by
+  cases hc : w.heap[x]? with
+  | none => exact absurd hx (Nat.not_lt.mpr (List.getElem?_eq_none_iff.mp hc))
+  | some c =>
+    by_cases hd : c.isDict = true
+    · have hk := step_kindAt env w op hwf hx
+      rw [kindAt_of_get hc] at hk
+      rcases kindAt_some hk with ⟨c', hc', hkc'⟩
+      rw [hc']
+      cases c <;> simp [Cell.isDict] at hd <;> cases c' <;> simp [Cell.kind] at hkc' <;> rfl
+    · rw [step_cell_nondict env w op hwf hc (by simpa using hd)]
+
+theorem step_metasOf (env : Env) (w : World) (op : DOp) (hwf : WF w.heap)
+    (hreg : ∀ p ∈ w.metaSchemas, p.2 < w.heap.length) (hv : op.registers = false) :
+    metasOf (step env w op).1 = metasOf w := by
+  have hm : (step env w op).1.metaSchemas = w.metaSchemas := by
+    simp [step, applyEffect, (effect_regs_none env w op hv).2]
+  unfold metasOf World.cell
+  rw [hm]
+  apply filterMap_congr'
+  intro p hp
+  exact step_metaEntry env w op hwf (hreg p hp) p.1
+
+theorem step_regsOf (env : Env) (w : World) (op : DOp) (hwf : WF w.heap)
+    (hreg : ∀ p ∈ w.metaSchemas, p.2 < w.heap.length) (hv : op.registers = false)
+    (hcc : op.isClsChecks = false) : regsOf (step env w op).1 = regsOf w := by
+  have h0 : (step env w op).1.heap[clsRegistry]? = w.heap[clsRegistry]? := by
+    refine applyEffect_old w _ (lt_of_kindAt hwf.reg) ?_
+    intro d c' hs e; subst e
+    have hm := (step_set_mutated env w op hwf hs).1
+    have hreg0 := hwf.reg
+    cases op <;> simp only [MutatedBy] at hm
+    case checks fc name fn raises =>
+      have : kindAt w.heap clsRegistry = some (.fmt (some fc)) := hwf.cells fc _ hm
+      rw [hreg0] at this; cases this
+    case clsChecks => simp [DOp.isClsChecks] at hcc
+    case userSet d0 k f => rw [← hm.1, hreg0] at hm; cases hm.2
+  unfold regsOf World.cell
+  rw [h0, step_metasOf env w op hwf hreg hv]
+  simp [step, applyEffect, (effect_regs_none env w op hv).1, (effect_regs_none env w op hv).2]
+
+/-! ### a concrete environment (for counterexamples) -/
+
+def stripHash (u : Str) : Str := if u.getLast? = some '#' then u.dropLast else u
+def splitHash (u : Str) : Str × Str := (u.takeWhile (· ≠ '#'), (u.dropWhile (· ≠ '#')).drop 1)
+
+/-- URI functions good enough for absolute URIs with an optional empty fragment -/
+def env0 : Env :=
+  { (default : Env) with
+    urinorm := fun u => some (stripHash u)
+    urldefrag := fun u => some (splitHash u)
+    urljoin := fun _ r => some r }
+
+def d7id : Str := "http://json-schema.org/draft-07/schema#".toList
+/-- `create(meta_schema={"$id": <draft-07 id>, "type": "number"}, validators={"type": type}, version="y")` -/
+def hijack : DOp :=
+  .create (.obj [("$id".toList, .str d7id), ("type".toList, .str "number".toList)])
+    (.lit [("type".toList, .type)]) (some "y".toList) none none "$id".toList
+/-- `Draft7Validator({"$ref": <draft-07 id>}).is_valid(5)` -/
+def hijackQuery : Query := .clsIsValid (.obj [("$ref".toList, .str d7id)]) (.num (.int 5))
+def Answer.asBool : Answer → Option Bool | .bool b => some b | _ => none
+
 /-- the world after `import jsonschema` is in order -/
 theorem initial_WF : WF initial.heap := wfb_sound (by decide +kernel)
 
